@@ -18,6 +18,7 @@ import Kanzi.Drv.Range
 import Kanzi.Drv.RLT
 import Kanzi.Drv.Ans1
 import Kanzi.Drv.CM
+import Kanzi.Drv.SRT
 
 open Kanzi
 
@@ -184,5 +185,6 @@ def main (args : List String) : IO UInt32 := do
   | ["rlt"] => loop stdin stdout Kanzi.Drv.rlt; return 0
   | ["ans1"] => loop stdin stdout Kanzi.Drv.ans1; return 0
   | ["cmpred"] => loop stdin stdout Kanzi.Drv.cmpred; return 0
+  | ["srt"] => loop stdin stdout Kanzi.Drv.srt; return 0
   | ["image"] => loop stdin stdout Kanzi.Drv.image; return 0
   | _ => IO.eprintln "usage: kmodel <norm>"; return 2
